@@ -1,4 +1,5 @@
 import BddVerif.Props.C09
+import BddVerif.Lemmas.AlgoEqUtilSpec
 #print axioms B.Props.C09.cnt_eq_filter_length
 #print axioms B.Props.C09.all_vals_enumeration
 #print axioms B.Props.C09.exact_card_spec
@@ -15,3 +16,8 @@ import BddVerif.Props.C09
 #print axioms B.Props.C09.support_exact_reduced
 #print axioms B.Props.C09.support_exact
 #print axioms B.Props.C09.size_per_variable_partition
+#print axioms B.AlgoEqUtil.Bdd_exact_cardinality_spec
+#print axioms B.AlgoEqUtil.Bdd_exact_clause_cardinality_spec
+#print axioms B.AlgoEqUtil.Bdd_exact_cardinality_eq_model_driver
+#print axioms B.AlgoEqUtil.Bdd_support_set_spec
+#print axioms B.AlgoEqUtil.Bdd_support_set_exact
